@@ -1,6 +1,8 @@
 """C21 External tensor data cannot escape the model directory or its file bounds."""
 from rulelib import *
 
+THOROUGH_CFGS = ('min_none', 'min_rten', 'min_onnx')   # reduced-feature builds of the rten crate (thorough tier)
+
 EXPLANATION = (
     "Path gate + byte-range rules over rten::model::external_data (all 3 DataLoader impls, mmap feature on): "
     "every Ok(DataSlice) exit of DataLoader::load is dominated by a positive is_allowed_external_data_path guard on "
